@@ -870,14 +870,8 @@ KF = {
     # to_hashable() sorts the items of a dict datum (uniqueItems / sets over Any): keys of several classes cannot be ordered
     "KF08c": lambda c, why, im, k_ok: _crash(why, "TypeError") and k_ok is not False and im.get("msg", "").startswith("'<' not supported")
                                       and '"dn"' in json.dumps(c["d"]),
-    # a mapping item whose key and value are both invalid: MappingMethod evaluates the value first, MappingCheckOnly the
-    # key first; each reports only one of the two errors, at the same location
-    "KF30": lambda c, why, im, k_ok: why == ["result-depends-on-no_copy"] and k_ok is not False and "mapping" in c["features"]
-                                     and _same_locs(c.get("info", {}).get("differs", {})),
     # a `properties(pattern=...)` field matches its pattern against every remaining key: a non-string key raises TypeError
     "KF45": lambda c, why, im, k_ok: _crash(why, "TypeError") and k_ok is not False and "aggregate-pattern" in c["features"]
                                      and "expected string or bytes-like object" in im.get("msg", "") and '"dn"' in json.dumps(c["d"]),
     # a non-string key reaches a key method whose bad_type / pattern / literal lookup raises
-    "KF11": lambda c, why, im, k_ok: why == ["no_copy=False-shares-a-container-with-the-input"] and k_ok is not False
-                                     and c.get("info", {}).get("shared_at_any") is True,
 }
